@@ -11,8 +11,8 @@ from vlib.sut_c import c_type_name
 from props import pycommon
 
 C_FUNC = re.compile(r"^int (Encode|Decode)(\w+)\(struct \w+ \*m, unsigned char \*s\) \{\n(.*?)^\}(?:\n|\Z)", re.M | re.S)
-C_DECL = re.compile(r"^(?:// (?:Encode|Decode) struct \w+ (?:to|from) given buffer s\.\n)?int (Encode|Decode)(\w+)\(struct \w+ \*m, unsigned char \*s\);(?:\n|\Z)", re.M)
-GO_FUNC = re.compile(r"^(?:// Encode struct \w+ to bytes buffer\.\n)?func \(m \*(\w+)\) (Encode|Decode)\((?:s \[\]byte)?\)(?: \[\]byte)? \{\n(.*?)^\}(?:\n|\Z)", re.M | re.S)
+C_DECL = re.compile(r"^(?://[^\n]*\n)?int (Encode|Decode)(\w+)\(struct \w+ \*m, unsigned char \*s\);(?:\n|\Z)", re.M)
+GO_FUNC = re.compile(r"^(?://[^\n]*\n)?func \(m \*(\w+)\) (Encode|Decode)\((?:s \[\]byte)?\)(?: \[\]byte)? \{\n(.*?)^\}(?:\n|\Z)", re.M | re.S)
 
 
 def c_functions(text):
